@@ -328,9 +328,26 @@ def c03_item(res, item):
             c03_one(res, g, d, rng)
 
 
+def c03_numle(res, rng):
+    """the model's exact int/float comparison (PyNum.le) against Python's own `<=` on rank-like values"""
+    vals = [0, 1, -1, True, False, 2 ** 53, 2 ** 53 + 1, 2 ** 53 - 1, -2 ** 53 - 1, 10 ** 20, 10 ** 20 + 1, 2 ** 1023, -2 ** 1030,
+            0.0, -0.0, 1.0, 0.5, -1.5, 2.0 ** 53, 2.0 ** 53 + 2, 1e20, 1e300, -1e300, 5e-324, -5e-324, 1.0000000000000002, float("inf"), float("-inf")]
+    for _ in range(size(res, 150, 600)):
+        vals.append(rng.choice([rng.randint(-10, 10), rng.uniform(-10, 10), rng.randint(-2 ** 70, 2 ** 70), float(rng.randint(-2 ** 60, 2 ** 60)),
+                                rng.randint(2 ** 53 - 4, 2 ** 53 + 4), 2.0 ** 53 + 2 * rng.randint(-3, 3)]))
+    pairs = [(rng.choice(vals), rng.choice(vals)) for _ in range(size(res, 3000, 12000))]
+    outs = Driver().run(["NUMLE %s %s" % (core.num_token(a), core.num_token(b)) for a, b in pairs])
+    for (a, b), o in zip(pairs, outs):
+        res.traces += 1
+        res.count("numle_comparisons")
+        if str(a <= b) != o:
+            res.fail("correspondence", "C03: Python evaluates %r <= %r as %r, the model's PyNum.le as %s" % (a, b, a <= b, o), dict(type="numle", a=repr(a), b=repr(b)))
+
+
 def c03(res):
     rng = random.Random(res.seed)
     c03_ties(res)
+    c03_numle(res, rng)
     allgames = []
     n = size(res, 220, 1200)
     for _ in range(n):
